@@ -147,7 +147,7 @@ def branch_index(root_path):
 
 
 def build_psbt(rng, w, n_inputs=1, n_spend=1, with_change=True, global_xpubs=False, unknowns=False,
-               segwit_flag=False, fee=None, defer=False):
+               segwit_flag=False, fee=None, defer=False, same_addr=False, change_at=None):
     """create + update through PSBT.create (tx_lookup / pubkey_lookup / redeem_lookup / witness_lookup)"""
     from buidl.tx import Tx, TxIn, TxOut
     from buidl.psbt import PSBT
@@ -161,6 +161,8 @@ def build_psbt(rng, w, n_inputs=1, n_spend=1, with_change=True, global_xpubs=Fal
     b.prev_txs = []
     for i in range(n_inputs):
         idx = rng.randrange(0, 6)
+        if same_addr and b.input_index:
+            idx = b.input_index[0]          # several UTXOs of one wallet address: same script, same paths
         spk, rs, ws = w.scripts(0, idx)
         amount = rng.randrange(60_000, 400_000)
         decoy = [(rng.randrange(1000, 9000), P2PKHScriptPubKey(rbytes(rng, 20))) for _ in range(rng.randrange(0, 3))]
@@ -185,7 +187,8 @@ def build_psbt(rng, w, n_inputs=1, n_spend=1, with_change=True, global_xpubs=Fal
     b.change_pos = None
     remaining = total - fee
     n_out = n_spend + (1 if with_change else 0)
-    change_at = rng.randrange(0, n_out) if with_change else None
+    r_at = rng.randrange(0, n_out) if with_change else None
+    change_at = (change_at % n_out if change_at is not None else r_at) if with_change else None
     for o in range(n_out):
         last = o == n_out - 1
         amt = remaining if last else rng.randrange(1000, max(1001, remaining // (n_out - o) ))
